@@ -664,61 +664,91 @@ def eval_type_writer(c, f, case):
             return any(bind(a, v) for a in pat["alts"])
         raise _Unknown("pattern " + str(k))
 
+    written = []          # (format shape, placeholder roles) of every write executed, in order
+
+    class _Ret(Exception):
+        pass
+
+    def emit(site):
+        pc = fmtstr.parse_call(site["snippet"])
+        roles = []
+        for a in fmtstr.arg_nodes(site):
+            try:
+                v = val(a) if a is not None else ("?",)
+            except _Unknown:
+                v = ("?",)
+            roles.append(v[1] if v[0] == "int" else "?")
+        written.append((fmtstr.shape(pc[2]), roles))
+
     def run_(e):
-        """returns the site node reached (first write), or None"""
-        e0 = e
-        if id(e0) in sites:
-            return sites[id(e0)]
+        """executes e abstractly, recording the writes in order"""
+        if id(e) in sites:
+            emit(sites[id(e)])
+            return
         k = e.get("k")
-        if k in ("try", "semi", "return", "ireturn"):
-            return run_(e["e"]) if "e" in e else None
+        if k in ("return", "ireturn"):
+            if "e" in e:
+                run_(e["e"])
+            raise _Ret()
+        if k in ("try", "semi", "ref", "paren"):
+            if "e" in e:
+                run_(e["e"])
+            return
         if k == "blockexpr" or k == "block":
             b = e["b"] if k == "blockexpr" else e
-            for s_ in b["stmts"]:
-                if s_.get("k") == "let":
-                    if "init" in s_:
-                        r = run_(s_["init"])
-                        if r is not None:
-                            return r
-                        try:
-                            bind(s_["pat"], val(s_["init"]))
-                        except _Unknown:
-                            pass            # a binding that is never needed does not matter; a needed one raises at its use
-                    continue
-                r = run_(s_)
-                if r is not None:
-                    return r
-            return run_(b["tail"]) if "tail" in b else None
+            try:
+                for s_ in b["stmts"]:
+                    if s_.get("k") == "let":
+                        if "init" in s_:
+                            run_(s_["init"])
+                            try:
+                                bind(s_["pat"], val(s_["init"]))
+                            except _Unknown:
+                                pass            # a binding that is never needed does not matter; a needed one raises at its use
+                        continue
+                    run_(s_)
+                if "tail" in b:
+                    run_(b["tail"])
+            except _Ret:
+                if k == "blockexpr" and "inl_id" in e:
+                    return                      # the exit of an inlined helper ends that helper only
+                raise
+            return
         if k == "match":
+            if not any(id(x) in sites for x in walk(e)):
+                return
             v = val(e["scrut"])
             for arm in e["arms"]:
                 if "guard" in arm:
                     raise _Unknown("guard")
                 if bind(arm["pat"], v):
-                    return run_(arm["body"])
+                    run_(arm["body"])
+                    return
             raise _Unknown("no arm matches")
         if k == "if":
+            if not any(id(x) in sites for x in walk(e)):
+                return
             cv = val(e["cond"])
             if cv[0] != "bool":
                 raise _Unknown("condition")
             if cv[1]:
-                return run_(e["then"])
-            return run_(e["else"]) if "else" in e else None
+                run_(e["then"])
+            elif "else" in e:
+                run_(e["else"])
+            return
         if k in ("mcall", "call"):
             for a in call_args(e):
                 if any(id(x) in sites for x in walk(a)):
-                    return run_(a)
-            return None
-        return None
-    site = run_(f["body"])
-    if site is None:
+                    run_(a)
+            return
+        return
+    try:
+        run_(f["body"])
+    except _Ret:
+        pass
+    if not written:
         raise _Unknown("nothing is written")
-    pc = fmtstr.parse_call(site["snippet"])
-    roles = []
-    for a in fmtstr.arg_nodes(site):
-        v = val(a) if a is not None else ("?",)
-        roles.append(v[1] if v[0] == "int" else "?")
-    return fmtstr.shape(pc[2]), roles
+    return "".join(w[0] for w in written), [r for w in written for r in w[1]]
 
 
 def types(ctx, c):
@@ -1046,11 +1076,20 @@ def cmd_table(ctx, c):
             continue
         sites = fmtstr.macro_sites(c, arm["body"], ("write", "writeln"))
         first = None
+
+        def lit_role(node):
+            # a placeholder that prints a string constant (e.g. the command name handed to a helper that writes `({cmd} :{name} {value})`)
+            n_ = resolve(node)
+            return ("lit", n_["v"]) if n_.get("k") == "lit" and isinstance(n_.get("v"), str) else "arg"
+        from .. import linewriter
         for s_ in sites:
-            pc = fmtstr.parse_call(s_["snippet"])
-            if pc and pc[2] and pc[2].startswith("("):
-                first = re.match(r"^\(([a-z\-]+)", pc[2]).group(1) if re.match(r"^\(([a-z\-]+)", pc[2]) else None
-                break
+            toks = linewriter.site_tokens(s_, lit_role)
+            if toks and toks[0] and all(p_[0] == "lit" for p_ in toks[0]):
+                word = "".join(p_[1] for p_ in toks[0])
+                if word.startswith("("):
+                    mm = re.match(r"^\(([a-z\-]+)", word)
+                    first = mm.group(1) if mm else None
+                    break
         rows[vname(vp[0])] = (first, arm)
     return f, rows
 
